@@ -24,25 +24,31 @@ var recencyGen = rapid.SampledFrom([]int{0, 0, 0, 0, 0, 1, 1, 1, 2, 2, 3, 5})
 func c20OpGen() *rapid.Generator[op] {
 	return rapid.Custom(func(rt *rapid.T) op {
 		switch k := rapid.IntRange(0, 99).Draw(rt, "kind"); {
-		case k < 24:
+		case k < 18:
 			return op{K: "pv", A: recencyGen.Draw(rt, "parent")}
-		case k < 31:
+		case k < 23:
 			return op{K: "pv", A: recencyGen.Draw(rt, "parent"), Inv: true}
-		case k < 45:
+		case k < 31:
+			return op{K: "po", A: recencyGen.Draw(rt, "parent"), Inv: rapid.IntRange(0, 5).Draw(rt, "inv") == 0}
+		case k < 41:
+			return op{K: "vf", A: recencyGen.Draw(rt, "which"), B: rapid.SampledFrom([]int{0, 0, 0, 0, 1, 2, 3}).Draw(rt, "wrapper")}
+		case k < 50:
 			return op{K: "build", A: rapid.SampledFrom([]int{0, 0, 0, 1, 1, 2}).Draw(rt, "ctx")}
-		case k < 57:
+		case k < 58:
 			return op{K: "pref", A: recencyGen.Draw(rt, "pref")}
-		case k < 67:
+		case k < 66:
 			return op{K: "accP", A: rapid.SampledFrom([]int{0, 0, 1, 2}).Draw(rt, "n")}
-		case k < 74:
+		case k < 72:
 			return op{K: "accB", A: recencyGen.Draw(rt, "branch"), B: rapid.SampledFrom([]int{0, 0, 1, 2}).Draw(rt, "n")}
+		case k < 80:
+			return op{K: "pk", A: rapid.SampledFrom([]int{0, 0, 0, 1, 1, 2, 3, 5, 8, 12}).Draw(rt, "known"), B: rapid.SampledFrom([]int{0, 0, 1, 1, 2, 2}).Draw(rt, "class")}
 		case k < 82:
-			return op{K: "pk", A: rapid.IntRange(0, 12).Draw(rt, "known")}
-		case k < 84:
-			return op{K: "future"}
-		case k < 89:
-			return op{K: "hold"}
+			return op{K: "evict", A: rapid.IntRange(0, 3).Draw(rt, "fillers")}
+		case k < 90:
+			return op{K: "dup", A: recencyGen.Draw(rt, "which")}
 		case k < 94:
+			return op{K: "hold"}
+		case k < 97:
 			return op{K: "release"}
 		default:
 			return op{K: "drain"}
@@ -104,6 +110,9 @@ func c20Run(c c20Case, st *vstat.Stats) (err error) {
 			return wrapStep(i, o, err)
 		}
 		if err := e.checkRejects(s); err != nil {
+			return wrapStep(i, o, err)
+		}
+		if err := e.checkOnce(s); err != nil {
 			return wrapStep(i, o, err)
 		}
 		if err := e.sweep(); err != nil {
